@@ -1,6 +1,7 @@
 INIT Init
 NEXT Next
 CONSTANTS
+  Deep = FALSE
   OutFile = "cases.ndjson"
 INVARIANTS Transparent Emit
 CHECK_DEADLOCK FALSE
